@@ -188,6 +188,8 @@ def mutator_obligations(c):
     # ---- who may panic
     if op in CHECKED or op in UNARY or op in ('new_node', 'clear'):
         if kind == 'panic': ob.append(('C05.no_panic', F_))
+    if op in ('remove', 'remove_subtree') and kind == 'panic':
+        ob.append(('C04.completes_on_live_node', F_))        # the property says what remove does to a live node: panicking is not it
     if op in INSERTS:
         imp = specs.impossible(pre, t, x)
         removed_arg = z3.Or(z3.Not(c.t_live), z3.Not(c.x_live))
@@ -256,20 +258,19 @@ def mutator_obligations(c):
 
 
 def alloc_free_spec(pre, post, freed):
-    """remove / remove_subtree: count unchanged; freed slots are exactly `freed`; free list = old list ++ freed reusable slots
-    (membership and old order; INV(post) gives the chain shape)."""
+    """remove / remove_subtree: count unchanged; the freed slots are exactly `freed` and are marked free. Which slots are on
+    the free list afterwards follows from INV(post) (exactly the removed, reusable ones); the *order* of the list is not
+    part of any property and is deliberately not constrained (a LIFO list would be as good as the FIFO one)."""
     N = pre.N
     out = [('C07.count_unchanged_on_free', z3.BoolVal(post.N == N))]
     if post.N != N: return out
-    # old free-list order is preserved: old NextFree pointers of slots that had a successor are unchanged
     for i in range(N):
-        out.append(('C07.old_order_kept[%d]' % (i + 1), z3.Implies(z3.And(z3.Not(pre.live(i)), pre.nf_some[i]),
-                    z3.And(post.nf_some[i], post.nf_idx[i] == pre.nf_idx[i]))))
         out.append(('C07.freed_is_free[%d]' % (i + 1), z3.Implies(freed[i], z3.And(z3.Not(post.live(i)), z3.Not(post.is_data[i])))))
         # generation bookkeeping: a freed slot remembers the generation it was freed at (stamp s -> -s-1), so that
         # the next generation is strictly larger and a slot freed at the last generation (32767) is retired (i16::MIN)
         out.append(('C06.freed_keeps_generation[%d]' % (i + 1), z3.Implies(freed[i], post.stamp[i] == -pre.stamp[i] - 1)))
-    out.append(('C07.head_kept', z3.Implies(pre.ff_some, z3.And(post.ff_some, post.ff_idx == pre.ff_idx))))
+        # a slot that was already free stays free and keeps its generation
+        out.append(('C07.free_slots_stay_free[%d]' % (i + 1), z3.Implies(z3.Not(pre.live(i)), z3.And(z3.Not(post.live(i)), post.stamp[i] == pre.stamp[i]))))
     return out
 
 
@@ -289,7 +290,10 @@ def alloc_spec(ctx, pre, post, parent):
     out.append(('C07.returned_in_range', z3.And(z3.UGE(ridx, 1), z3.ULE(ridx, post.N))))
     out.append(('C07.returned_was_free', z3.Not(sel(waslive, ridx))))
     if grew: out.append(('C07.returned_is_new_slot', ridx == N + 1))
-    else: out.append(('C07.returned_is_fifo_head', ridx == pre.ff_idx + 1))
+    else:
+        # any slot of the free list will do (the order of reuse is not part of the property)
+        onl_pre = [z3.And(z3.Not(pre.live(i)), pre.stamp[i] > I16MIN) for i in range(N)]
+        out.append(('C07.returned_was_free_listed', sel(onl_pre, ridx) if N else F_))
     out.append(('C07.returned_live', sel([post.live(i) for i in range(post.N)], ridx)))
     out.append(('C06.returned_stamp_current', sel(post.stamp, ridx) == rst))
     out.append(('C08.new_payload_stored', z3.And(sel(post.is_data, ridx), sel(post.data, ridx) == ctx.newdata)))
@@ -297,7 +301,7 @@ def alloc_spec(ctx, pre, post, parent):
         old = sel(pre.stamp, ridx)
         out.append(('C06.recycled_stamp_fresh', z3.And(rst > -(old + 1), rst >= 0)))
     elif grew:
-        out.append(('C06.new_slot_stamp_zero', rst == 0))
+        out.append(('C06.new_slot_stamp_live', rst >= 0))
     for L in LINKS:
         if parent is not None and L in ('parent', 'prev'): continue
         out.append(('C12.recycled_no_links[%s]' % L, z3.Not(sel(post.some[L], ridx))))
@@ -310,17 +314,9 @@ def alloc_spec(ctx, pre, post, parent):
                             z3.Implies(pre.some[L][i], z3.And(post.idx[L][i] == pre.idx[L][i], post.lst[L][i] == pre.lst[L][i]))))))
         out.append(('C06.stamp_frame[%d]' % (i + 1), z3.Implies(other, post.stamp[i] == pre.stamp[i])))
         out.append(('C08.payload_frame[%d]' % (i + 1), z3.Implies(z3.And(other, pre.live(i)), z3.And(post.is_data[i], post.data[i] == pre.data[i]))))
-        out.append(('C07.others_nextfree[%d]' % (i + 1), z3.Implies(z3.And(other, z3.Not(pre.live(i))),
-                    z3.And(z3.Not(post.is_data[i]), specs.opt_eq(post.nf_some[i], post.nf_idx[i], pre.nf_some[i], pre.nf_idx[i])))))
+        out.append(('C07.other_free_slots_stay_free[%d]' % (i + 1), z3.Implies(z3.And(other, z3.Not(pre.live(i))), z3.And(z3.Not(post.is_data[i]), z3.Not(post.live(i))))))
     if parent is not None:
         out += specs.spec_append_new(pre, post, parent, ridx)
-    # free list after allocation: head advanced to the old head's successor
-    if not grew and N:
-        ons, oni = sel(pre.nf_some, pre.ff_idx + 1), sel(pre.nf_idx, pre.ff_idx + 1)
-        out.append(('C07.head_advanced', specs.opt_eq(post.ff_some, post.ff_idx, ons, oni)))
-    else:
-        out.append(('C07.freelist_frame', z3.And(specs.opt_eq(post.ff_some, post.ff_idx, pre.ff_some, pre.ff_idx),
-                                                 specs.opt_eq(post.lf_some, post.lf_idx, pre.lf_some, pre.lf_idx))))
     return out
 
 
